@@ -574,6 +574,7 @@ class SecureSequenceTimer:
         "sync_latency_tolerance_ms",
         "timekeeper",
         "timer_authenticated",
+        "timer_in_use",
     )
 
     TIMER_NOTIFY_HEADER = bytes.fromhex("06 10 09 55 00 24")
@@ -602,6 +603,8 @@ class SecureSequenceTimer:
         self.sched_update: bool = False
         self.timekeeper: bool = False
         self.timer_authenticated: bool = False
+        # wrappers were sent or accepted with this timer - also as time keeper on the own clock
+        self.timer_in_use: bool = False
 
         self.latency_tolerance_ms = latency_ms
         self.sync_latency_tolerance_ms: int = round(
@@ -771,9 +774,11 @@ class SecureSequenceTimer:
                 + 2 * self.latency_tolerance_ms / 1000
             ):
                 timer_value = await waiter_fut
-            if self._clock_difference == 0 or timer_value > self.current_timer_value():
+            if (
+                not self.timer_in_use and self._clock_difference == 0
+            ) or timer_value > self.current_timer_value():
                 # the own clock is replaced by the group's timer - what authenticated
-                # frames have established meanwhile is never stepped back
+                # frames have established, or wrappers were sent with, is never stepped back
                 self.update(new_value=timer_value)
         except TimeoutError:
             # use highest received timer value of TimerNotify or SecureWrapper frames
@@ -786,6 +791,7 @@ class SecureSequenceTimer:
         finally:
             self._expected_notify_handler = None
         self.timer_authenticated = True
+        self.timer_in_use = True
         self.reschedule()
 
     def validate_secure_wrapper(self, secure_wrapper: SecureWrapper) -> bool:
